@@ -22,3 +22,11 @@ add("C02", "property-based testing (Hypothesis) with fault injection against a d
     "Generated-input search over simulated Kineto traces with injected faults (dropped launch, dropped activity, stripped correlation id, dropped sync record): every row's link is compared with a pure-Python join over the raw entries, and the 'never' clauses (same id, opposite sides, mutual, sentinel meaning) are asserted directly on every link.",
     "Trusts hv/model/raw.py (side rule: stream >= 0 with an id, or Event/Context Sync record); correlation ids unique per pair by construction.",
     "DESIGN.md §5 C02")
+add("C14", "property-based testing (Hypothesis) against a step-function reference model; round-trip through the written counter file",
+    "Generated-input search over simulated traces with equal-timestamp launch/start interleavings, several streams and copy types: the queue-length series is compared row by row with the +1/-1 event model (row set, timestamps, order, step per row, value at the end of each instant, non-negativity, final 0), the bandwidth series with the sum of active copies, and the counter events of the written file with both series at unshifted timestamps.",
+    "Trusts the event model in hv/props/c14.py and hv/model/raw.py; activities never start before their launch (by construction); bandwidth tolerance 1e-9 relative.",
+    "DESIGN.md §5 C14")
+add("C15", "property-based testing (Hypothesis) with fault injection against a join reference model (multiset equality)",
+    "Generated-input search over simulated traces (documented launch names, clipped and positive delays, memory launches, linked non-launch calls, missing partners) x include_memory_events x rank selection: the returned rows must equal, as a multiset, (correlation, cpu_duration, gpu_duration, max(0, start - launch end)) over the model's linked launch/activity pairs.",
+    "Trusts hv/model/raw.py links; fewer than two profiler steps so loading trims nothing.",
+    "DESIGN.md §5 C15")
